@@ -299,6 +299,20 @@ fn merkle_cap_height(num_entries: usize) -> Result<usize, CircuitBuilderError> {
     Ok(log2_strict_usize(num_entries))
 }
 
+/// Returns the number of Merkle path levels below a cap of height `cap_height` in a tree of
+/// `2^max_height_log` leaves, or an error when the cap has more entries than the tree has leaves.
+fn merkle_path_depth(
+    max_height_log: usize,
+    cap_height: usize,
+) -> Result<usize, CircuitBuilderError> {
+    max_height_log.checked_sub(cap_height).ok_or_else(|| {
+        CircuitBuilderError::Poseidon2ConfigMismatch {
+            expected: format!("a Merkle cap of height at most {max_height_log}"),
+            got: format!("a cap of height {cap_height}"),
+        }
+    })
+}
+
 /// Recursive version of `MerkleTreeMmcs::verify_batch`. Adds a circuit that verifies an opened
 /// batch of rows with respect to a given commitment (Merkle cap).
 ///
@@ -364,7 +378,7 @@ where
     let cap_height = merkle_cap_height(commitment_cap.len())?;
 
     let max_height_log = index_bits.len();
-    let path_depth = max_height_log - cap_height;
+    let path_depth = merkle_path_depth(max_height_log, cap_height)?;
 
     // Split index_bits into path bits (for Merkle traversal) and cap index bits
     let path_bits = &index_bits[..path_depth];
@@ -469,7 +483,7 @@ where
     let cap_height = merkle_cap_height(commitment_cap.len())?;
 
     let max_height_log = index_bits.len();
-    let path_depth = max_height_log - cap_height;
+    let path_depth = merkle_path_depth(max_height_log, cap_height)?;
     let path_bits = &index_bits[..path_depth];
     let cap_index_bits = &index_bits[path_depth..];
 
